@@ -708,6 +708,130 @@ fn scale_invariance_at<const M: usize>(d: f64, e0: f64, c: f64, tau: f64) {
     kani::cover!(x[0] == 3.0 && s[0] == 2.0 && p == 1.0 && a[0] == -2.0, "non-trivial iterate");
 }
 
+/// The same comparison over GF(13) with *symbolic* scalings d, e (every non-zero field value), c = tau = 1:
+/// run A on the equilibrated presentation (D P D, E A D, D q, E b; iterate x, z, s), run B on the user's
+/// presentation with identity scaling and the iterate (x d, z e, s / e).  Every product is exact in the field;
+/// sqrt is the canonical root, max/min/abs are the same functions of equal arguments in both runs, so every
+/// reported quantity must be EQUAL.  Swapping d<->dinv or e<->einv anywhere in DefaultInfo::update /
+/// DefaultResiduals::update changes an argument.  (c and tau stay 1: `sqrt(y^2 / t^2) = sqrt(y^2) / t` holds
+/// for positive reals but not for canonical roots in a field; those powers are covered by the f64 harnesses.)
+fn scale_invariance_fp<const M: usize>() {
+    use clarabel::solver::traits::Residuals;
+    unsafe {
+        crate::fp::CANONICAL_SQRT = true;
+    }
+    let p = F::any();
+    let q = F::any();
+    let d = F::any_nonzero();
+    let mut a = [F::new(0); M];
+    let mut b = [F::new(0); M];
+    let mut e = [F::new(1); M];
+    let mut z = [F::new(0); M];
+    let mut sv = [F::new(0); M];
+    let x = F::any();
+    let kappa = F::any();
+    let mut i = 0;
+    while i < M {
+        a[i] = F::any();
+        b[i] = F::any();
+        e[i] = F::any_nonzero();
+        z[i] = F::any();
+        sv[i] = F::any();
+        i += 1;
+    }
+    let mut rows = Vec::with_capacity(M);
+    let mut i = 0;
+    while i < M {
+        rows.push(i);
+        i += 1;
+    }
+    let Pm = CscMatrix::<F> { m: 1, n: 1, colptr: vec![0, 1], rowval: vec![0], nzval: vec![p] };
+    let Am = CscMatrix::<F> { m: M, n: 1, colptr: vec![0, M], rowval: rows, nzval: a.to_vec() };
+    let cones = [SupportedConeT::NonnegativeConeT(M)];
+    let mut st = settings_t::<F>();
+    st.presolve_enable = false;
+    st.equilibrate_enable = false;
+    let timers = clarabel::timers::Timers::default();
+
+    // ---- run B: user's presentation
+    let mut data_b = DefaultProblemData::<F>::new(&Pm, &[q], &Am, &b, &cones, &st);
+    let mut vb = DefaultVariables::<F>::new(1, M);
+    vb.x[0] = x * d;
+    let mut i = 0;
+    while i < M {
+        vb.z[i] = z[i] * e[i];
+        vb.s[i] = sv[i] / e[i];
+        i += 1;
+    }
+    vb.τ = F::new(1);
+    vb.κ = kappa;
+    let mut rb = DefaultResiduals::<F>::new(1, M);
+    rb.update(&vb, &data_b);
+    let mut ib = dh::info_new_sink::<F>();
+    ib.update(&mut data_b, &vb, &rb, &timers);
+
+    // ---- run A: equilibrated presentation
+    let mut data_a = DefaultProblemData::<F>::new(&Pm, &[q], &Am, &b, &cones, &st);
+    data_a.P.nzval[0] = d * p * d;
+    data_a.q[0] = d * q;
+    let mut i = 0;
+    while i < M {
+        data_a.A.nzval[i] = e[i] * a[i] * d;
+        data_a.b[i] = e[i] * b[i];
+        data_a.equilibration.e[i] = e[i];
+        data_a.equilibration.einv[i] = F::new(1) / e[i];
+        i += 1;
+    }
+    data_a.equilibration.d[0] = d;
+    data_a.equilibration.dinv[0] = F::new(1) / d;
+    let mut va = DefaultVariables::<F>::new(1, M);
+    va.x[0] = x;
+    va.z.copy_from_slice(&z);
+    va.s.copy_from_slice(&sv);
+    va.τ = F::new(1);
+    va.κ = kappa;
+    let mut ra = DefaultResiduals::<F>::new(1, M);
+    ra.update(&va, &data_a);
+    let mut ia = dh::info_new_sink::<F>();
+    ia.update(&mut data_a, &va, &ra, &timers);
+
+    assert!(ia.cost_primal == ib.cost_primal, "cost_primal_is_the_user_objective");
+    assert!(ia.cost_dual == ib.cost_dual, "cost_dual_is_the_user_dual_objective");
+    assert!(ia.res_primal == ib.res_primal, "res_primal_is_computed_on_the_unscaled_iterate");
+    assert!(ia.res_dual == ib.res_dual, "res_dual_is_computed_on_the_unscaled_iterate");
+    assert!(ia.res_primal_inf == ib.res_primal_inf, "res_primal_inf_is_computed_on_the_unscaled_iterate");
+    assert!(ia.res_dual_inf == ib.res_dual_inf, "res_dual_inf_is_computed_on_the_unscaled_iterate");
+    assert!(ia.gap_abs == ib.gap_abs && ia.gap_rel == ib.gap_rel, "gaps_are_computed_on_the_unscaled_iterate");
+    assert!(ia.ktratio == ib.ktratio, "ktratio_is_scale_free");
+    let xu = vb.x[0];
+    let mut bz = F::new(0);
+    let mut i = 0;
+    while i < M {
+        bz = bz + b[i] * vb.z[i];
+        i += 1;
+    }
+    let two = F::new(2);
+    assert!(ib.cost_primal == q * xu + (xu * p * xu) / two, "cost_primal_formula");
+    assert!(ib.cost_dual == -bz - (xu * p * xu) / two, "cost_dual_formula");
+    kani::cover!(d.0 == 2 && e[0].0 == 3 && sv[0].0 == 5 && x.0 == 7, "non-trivial scaling and iterate");
+}
+
+#[kani::proof]
+#[kani::unwind(5)]
+#[kani::stub(clarabel::timers::Timers::total_time, stub_total_time)]
+#[kani::stub(std::collections::hash_map::RandomState::new, stub_random_state)]
+pub fn c01_scale_invariance_fp_m1() {
+    scale_invariance_fp::<1>();
+}
+
+#[kani::proof]
+#[kani::unwind(5)]
+#[kani::stub(clarabel::timers::Timers::total_time, stub_total_time)]
+#[kani::stub(std::collections::hash_map::RandomState::new, stub_random_state)]
+pub fn c01_scale_invariance_fp_m2() {
+    scale_invariance_fp::<2>();
+}
+
 macro_rules! scale_harness {
     ($name:ident, $m:expr, $k:expr, $unwind:expr) => {
         #[kani::proof]
